@@ -62,7 +62,7 @@ def cleanup_sockets():
     import os
     for p in glob.glob("/var/tmp/verif.5.*"):
         try:
-            pid = int(p.rsplit(".", 1)[1])
+            pid = int(p.rsplit(".", 1)[1].rstrip("b"))
         except ValueError:
             continue
         if not os.path.exists("/proc/%d" % pid):
